@@ -19,12 +19,25 @@ CHECKS = {
    text="Seeded histories (<=4 operations, cached feasibility states carried along) are run for real; every pruning step (infeasible_elimination, compose::<true>, tree + - *) is compared with its un-pruned counterpart: z3 decides, for every piece of the un-pruned object tightened by tau=1e-6, that no input exists where the pruned tree differs in definedness or value, and that every node removed with all its descendants has an empty path region up to tau.",
    note=T_NOTE + "; regions thinner than tau may disappear (the property's own LP-tolerance carve-out)",
    technique="SMT (z3 QF_LRA) equivalence before/after pruning for all inputs, emptiness of removed regions"),
+ "C05": dict(engine="T", cat="translation_validation", ref="5 C05",
+   text="Seeded histories (<=5/6 operations incl. pruned/un-pruned composition, arithmetic, reduce, remove_axes, repeated elimination; a quarter with large un-normalised predicates where the LP's vertices miss half-spaces) are run for real and every node state is exported after every operation. Each stored witness is checked against every closed path condition within 1e-8 by exact rational evaluation; for each node marked infeasible z3 decides that its path region tightened by tau is empty, for each node marked feasible that the relaxed region is non-empty; every point returned by mirror_points on seeded polytopes/start points lies in the polytope.",
+   note=T_NOTE, technique="SMT (z3 QF_LRA) emptiness/non-emptiness of path regions behind cached verdicts; exact rational membership of stored witnesses"),
+ "C06": dict(engine="T", cat="translation_validation", ref="5 C06",
+   text="On total trees (seeded compose/apply_func/eliminate pipelines) z3 decides after infeasible_elimination that every surviving non-root node has a non-empty path region once relaxed by tau; no decision below the root keeps a single branch; a second elimination changes nothing and solves no LP. For distilled ReLU networks (<=6/7 units) z3 decides for every activation pattern whether its open and its closed region are non-empty and the number of terminals must lie between the two counts.",
+   note=T_NOTE, technique="SMT (z3 QF_LRA) non-emptiness of every surviving path region and of every activation-pattern region"),
+ "C07": dict(engine="T", cat="translation_validation", ref="5 C07",
+   text="Operand pairs (shapes <=2 decisions, total/partial, K=2 and K=4) under + - * / in every ownership variant, tree-affine forms on either side, and negation are run for real; the reference is the point-wise lifting computed by the encoder from the exported operands; z3 decides per reference piece (tightened by tau for the pruning tree-tree forms) that no input exists where the result differs in definedness or value, operand order included.",
+   note=T_NOTE + "; division compared up to 1e-9 on |x|<=1024 (quotients are not dyadic); zero divisor coefficients outside the claim",
+   technique="SMT (z3 QF_LRA) equivalence of the result tree against the encoder-computed point-wise lifting, all inputs symbolic"),
  "C08": dict(engine="T", cat="translation_validation", ref="5 C08",
    text="Every shape with <=3 decisions plus seeded larger ones, terminals drawn from a pool of identical functions and near-copies, scrambled arena layouts and column-major matrices: the real reduce runs and z3 decides per piece that reduce(t) equals t for all inputs, definedness included; node count, idempotence, no identical terminal siblings left below the root and differing siblings kept are read off the exported trees.",
    note=T_NOTE, technique="SMT (z3 QF_LRA) equivalence of the tree before and after reduce, all inputs symbolic; structural clauses by comparison of exports"),
  "C09": dict(engine="T", cat="translation_validation", ref="5 C09",
    text="For every generated tree (all shapes <=3 decisions, seeded 3-4, total/partial, scrambled layouts, parallel/coincident/zero-row predicates) z3 decides per node that routing implies membership in the reported path conditions, that strict interior points of the reported polytope are routed through the node, that terminal interiors are disjoint and that total trees cover the space; routing is the calibrated encoding of evaluate_decision and is confirmed by the real find_terminal at solver-chosen interior and on-hyperplane points. Stream order, depth, sibling counters and path conditions under every single (and pairs of) skip position are compared with a DFS derived from the exported links.",
    note=T_NOTE, technique="SMT (z3 QF_LRA) region/routing agreement per node for all inputs; stream structure by comparison with exported links"),
+ "C10": dict(engine="T", cat="translation_validation", ref="5 C10",
+   text="Constraint systems by category (bounded, empty with margin / by a hair, point, lower-dimensional, unbounded, redundant, zero rows, parallel rows, free coordinate) with five objectives each, plus every LP that real pruning runs pose (hook call log): z3 referees each answer of status/is_feasible/solve_linprog/Chebyshev program over all points: infeasible => tightened system empty; feasible => relaxed system non-empty; optimal(w) => w in the set (1e-8 relative) and no feasible point is better by more than 1e-6; unbounded => a feasible point and an improving recession direction exist.",
+   note=T_NOTE, technique="SMT (z3 QF_LRA) certificate checking of every LP answer: emptiness, membership, optimality (no better point), recession rays"),
  "C17": dict(engine="T", cat="translation_validation", ref="5 C17",
    text="Every schema generator (dims 1..3/1..5, every row/class, a parameter lattice containing the degenerate points), from_poly on seeded polytopes and from_slice+remove_axes on generated trees is run for real; z3 decides per piece of the produced tree that no real input exists where it differs from the textbook definition written out as an exact piece list (strict/non-strict sides as in the definitions).",
    note=T_NOTE, technique="SMT (z3 QF_LRA) equivalence of exported schema trees against textbook piecewise definitions, all inputs symbolic"),
